@@ -7,7 +7,7 @@ prints `cases <n> mismatches <k>`.
 """
 import sys, os, json, random, subprocess
 from fractions import Fraction
-sys.path.insert(0, '/repo')
+sys.path.insert(0, os.environ.get('RSOME_REPO', '/repo'))
 import numpy as np
 import rsome as rso
 from rsome import ro, gcp
